@@ -638,7 +638,15 @@ func (g *c03vGen) buildVALU(op c03vOp, variant string, full bool) {
 			}
 			code, _, _ := g.source(sg.w[i], sg.fl[i], lanes, false, !readsVCC || i == 2, false)
 			if name == "v_lshl_add_u64" && i == 1 {
-				code = 128 + uint32(rng.Intn(5)) // documented shift range 0..4
+				// mostly the shift range compilers emit (0..4); one case in eight a count of 8 or more, where
+				// S1[5:0] (both ALUs) and S1[2:0] (ISA) differ: *_runVLSHLADDU64_refuted in Props/C03VConf.lean.
+				// One draw, as before; k%5 for k < 35 is the value the earlier generator drew.
+				k := rng.Intn(40)
+				if k < 35 {
+					code = 128 + uint32(k%5)
+				} else {
+					code = 128 + []uint32{8, 9, 16, 33, 63}[k-35]
+				}
 			}
 			f[keys[i]] = code
 		}
